@@ -60,6 +60,14 @@ def gen(rng, n):
                 argv.append('--overwrite')
         step = {'cmd': 'restore', 'argv': argv, 'stdin': reply + '\n' if rng.random() < 0.9 else reply, 'listdir': rng.choice(['sorted', 'reverse', rng.randint(1, 50)])}
         scn = {'tree': tree, 'mounts': [], 'cwd': cwd, 'uid': 0, 'env': {'HOME': '/home/u', 'TRASH_VOLUMES': '/'}, 'steps': [step]}
+        if cwd.startswith('/a') and rng.random() < 0.4:
+            # the working directory was reached through a symbolic link and the shell says so in $PWD: the scope is the PHYSICAL
+            # directory all the same (the recorded locations have their parents resolved)
+            tree.append(['l', '/lnk', '/a'])
+            if not any(e[1] == cwd for e in tree if e[0] == 'd'):
+                tree.insert(0, ['d', cwd, 0o755])
+            scn['cwd'] = '/lnk' + cwd[2:]
+            scn['env']['PWD'] = '/lnk' + cwd[2:]
         scns.append(scn)
         metas.append({'ents': ents, 'scope': scope, 'cwd': cwd, 'sort': sort or 'date', 'reply': reply, 'eof': not step['stdin'].endswith('\n'),
                       'overwrite': overwrite})
@@ -262,6 +270,7 @@ def replay(run, payload):
     scope = av[0] if av and not av[0].startswith('-') else None
     sort = av[av.index('--sort') + 1] if '--sort' in av else 'date'
     stdin = st.get('stdin') or ''
-    judge(run, scn, {'ents': ents, 'scope': scope, 'cwd': scn['cwd'], 'sort': sort, 'reply': stdin.rstrip('\n') if stdin.endswith('\n') else stdin,
+    phys = '/a' + scn['cwd'][4:] if scn['cwd'].startswith('/lnk') else scn['cwd']       # (the generator's /lnk -> /a)
+    judge(run, scn, {'ents': ents, 'scope': scope, 'cwd': phys, 'sort': sort, 'reply': stdin.rstrip('\n') if stdin.endswith('\n') else stdin,
                      'eof': not stdin.endswith('\n'), 'overwrite': '--overwrite' in av}, res, None)
     engine.run_monitors(run, 'selection-monitor', [('select', 'x', o, {'scenario': scn})], 'selection monitor rejects', 'mutation-on-invalid-reply', silent=True)
